@@ -287,4 +287,61 @@ class CallEngine(Engine):
     return len(levels) >= 2 and bool(supplied & set(bound))
 
 
-ENGINES = [CallEngine()]
+class LateClassEngine(Engine):
+  """a method registered on its own (@gin.register in the class body) whose class is registered LATER, possibly after the
+  method's configurable has already been called: from then on the bindings made through <Class>.<method> (root and scoped,
+  longest prefix wins) are what the method receives, the caller's own values still win.  Implementation only: the Gin-machine
+  model registers everything up front."""
+  name = 'late-class-registration'
+  model = False
+
+  def budget(self, tier):
+    return 0
+
+  def corpus(self):
+    return [{'api': a, 'call_before': c, 'bind_before': b, 'static': st}
+            for a in ('register', 'external') for c in (False, True) for b in (False, True) for st in (False, True)]
+
+  def gen(self, rng, tier):
+    return self.corpus()[0]
+
+  def impl(self, case):
+    gin = C.fresh_gin()
+    fails = []
+    ns = {'gin': gin, '__name__': 'c01mod'}
+    deco = '  @staticmethod\n' if case['static'] else ''
+    first = '' if case['static'] else 'self, '
+    exec('class K:\n%s  @gin.register\n  def meth(%sx=1, y=2):\n    return (x, y)\n' % (deco, first), ns)  # pylint: disable=exec-used
+    K = ns['K']
+    call0 = (lambda **kw: gin.get_configurable(K.meth)(**kw)) if case['static'] else (lambda **kw: gin.get_configurable(K.meth)(K(), **kw))
+    if case['bind_before']:
+      gin.bind_parameter('c01mod.meth.x', 7)
+    if case['call_before']:
+      got = call0()
+      if got != ((7 if case['bind_before'] else 1), 2):
+        fails.append(('provisional-binding-not-injected', repr(got)))
+    if case['api'] == 'register':
+      gin.register(K, module='c01pkg')
+    else:
+      gin.external_configurable(K, module='c01pkg')
+    if not case['bind_before']:
+      gin.bind_parameter('K.meth.x', 7)
+    gin.bind_parameter('s1/c01pkg.K.meth.x', 8)
+    gin.bind_parameter('s1/s2/K.meth.y', 9)
+    gin.bind_parameter('s2/K.meth.y', 99)
+    inst = gin.get_configurable(K)()
+    for scope, kw, want in (('', {}, (7, 2)), ('s1', {}, (8, 2)), ('s1/s2', {}, (8, 9)), ('s1/s2', {'x': 0}, (0, 9)),
+                            ('s2/s1', {}, (7, 99)), ('s3/s2', {}, (7, 2)), ('s3', {'y': 5}, (7, 5))):
+      try:
+        with gin.config_scope(scope or None):
+          got = inst.meth(**kw)
+      except Exception as e:  # pylint: disable=broad-except
+        got = 'raised %s: %s' % (type(e).__name__, str(e)[:100])
+      if got != want:
+        fails.append(('wrong-argument', 'K.meth%r under scope %r (class registered %s the first call of the method): received %r, '
+                      'the bindings K.meth.x=7, s1/K.meth.x=8, s1/s2/K.meth.y=9, s2/K.meth.y=99 require %r' %
+                      (kw, scope, 'after' if case['call_before'] else 'before', got, want)))
+    return {'obs': T('Done'), 'fails': fails[:3], 'nontrivial': True, 'tags': [case['api']]}
+
+
+ENGINES = [CallEngine(), LateClassEngine()]
